@@ -277,8 +277,11 @@ func (c *ExpressionParser) completeLexicalAnalysis() error {
 			}
 		case tokenizers.Word:
 			{
-				tokenType = Variable
-				tokenValue = variants.VariantFromString(token.Value())
+				// An empty quoted identifier ("") is not a variable name
+				if token.Value() != "" {
+					tokenType = Variable
+					tokenValue = variants.VariantFromString(token.Value())
+				}
 				break
 			}
 		case tokenizers.Integer:
